@@ -741,8 +741,13 @@ BTreeIter_next(BTreeIter *bi, PyObject *args)
         {
             Py_XINCREF(bucket->next);
             items->currentbucket = bucket->next;
+            items->currentoffset = 0;
+            /* The iterator's reference may be the last one (the bucket was
+             * unlinked from its tree meanwhile): unpin before releasing it.
+             */
+            PER_UNUSE(bucket);
             Py_DECREF(bucket);
-            i = 0;
+            return result;
         }
         items->currentoffset = i;
     }
